@@ -95,7 +95,7 @@ func (p *c07Pump) run(done func() bool, maxSteps int) bool {
 		}
 		if p.chaos && !p.dripInit {
 			p.dripInit = true
-			if tp.Chance("drip", 1, 2) {
+			if tp.Chance("drip", 2, 3) {
 				p.drip = true
 				p.dripNode = p.nodes[tp.Choose("drip-who", len(p.nodes))]
 				r.Fault("drip-fed-member")
@@ -175,13 +175,17 @@ func c07Run(t *testing.T, r *verifsim.Run, mode string) {
 	tp := r.T
 	type gp struct{ n, q, h int }
 	configs := []gp{{3, 3, 2}, {4, 3, 3}, {5, 4, 3}, {5, 3, 3}, {4, 3, 2}}
-	cfg := configs[tp.Choose("group", len(configs))]
+	cfg := configs[tp.Weighted("group", 1, 1, 2, 3, 1)]
 	params := &GroupParameters{GroupSize: cfg.n, GroupQuorum: cfg.q, HonestThreshold: cfg.h}
 	// exclusion set leaving at least the quorum
 	maxEx := cfg.n - cfg.q
 	nEx := 0
 	if maxEx > 0 {
-		nEx = tp.Range("excluded-count", 0, maxEx)
+		w := make([]int, maxEx+1)
+		for i := range w {
+			w[i] = 1 + i
+		}
+		nEx = tp.Weighted("excluded-count", w...)
 	}
 	perm := tp.Perm("excluded-who", cfg.n)
 	excluded := map[int]bool{}
